@@ -1,3 +1,4 @@
 // C01/C02 type configurations, group 4 [quick tier] (see c01_btree.hpp; C01_TYPE(kind, greater, leaf, inner, search 0=linear 1=binary 2=default traits, element))
 #include "c01_btree.hpp"
 C01_TYPE(MMAP, false, 4, 4, 0, c01::Tracked)
+C01_TYPE(SET, false, 6, 4, 0, int)
